@@ -29,7 +29,12 @@ Record case := mkCase {
   c_id : N;
   c_pays : list pay;
   c_dirs : list dir;        (* [] = no enforced schedule (free-running) *)
-  c_obs : list oobs }.
+  c_obs : list oobs;
+  (* the variable `event` of the declaring (global) scope: number it was set to before the
+     sinks were declared (0 = the script declares none) and the number found in it after all
+     invocations returned (0 = none, or no longer that kind of value) *)
+  c_outer : N;
+  c_outer_after : N }.
 
 Definition payload_of (p : pay) : cpayload :=
   let '(P i k t d a) := p in mkP (N.to_nat i) (N.to_nat k) (N.to_nat t) (N.to_nat d) (N.to_nat a).
@@ -101,16 +106,27 @@ Fixpoint compare (evs : list cpayload) (ths : list (thread cpayload cerr)) (os :
   | _, _ => 3
   end.
 
+Definition outer_of (n : N) : option nat := if N.eqb n 0 then None else Some (N.to_nat n).
+Definition outer_eqb (a b : option nat) : bool :=
+  match a, b with Some x, Some y => Nat.eqb x y | None, None => true | _, _ => false end.
+
 (* 0 = agree; 1 = the error recorded for an event is not what that event dictates;
    2 = the values echoed under an event's monitor are not that event's;
-   3 = the case is malformed (the model cannot follow the schedule to the end) *)
+   3 = the case is malformed (the model cannot follow the schedule to the end);
+   4 = the declaring scope's own variable `event` was changed by the invocations *)
 Definition verdict (c : case) : nat :=
   let evs := c_events c in
   let dirs := match c_dirs c with [] => sequential (List.length evs) | d => d end in
-  let sched := sched_of (cinit evs) dirs [] in
-  match run (cstep no_sharing) (cinit evs) sched with
+  let s0 := cinit_with (outer_of (c_outer c)) evs in
+  let sched := sched_of s0 dirs [] in
+  match run (cstep no_sharing) s0 sched with
   | None => 3
-  | Some s' => if negb (all_done s') then 3 else compare evs (g_threads s') (c_obs c)
+  | Some s' =>
+      if negb (all_done s') then 3
+      else match compare evs (g_threads s') (c_obs c) with
+           | 0 => if outer_eqb (g_outer s') (outer_of (c_outer_after c)) then 0 else 4
+           | v => v
+           end
   end.
 
 Definition check_all (cs : list case) : list (nat * nat) :=
@@ -119,10 +135,14 @@ Definition check_all (cs : list case) : list (nat * nat) :=
 (* self-test of the checker on the defect's witness: a lost error is flagged *)
 Example verdict_flags_lost_error :
   verdict (mkCase 1 [P 1 1 11 12 13; P 2 0 0 0 0] [D 0 7; D 1 8; D 0 8]
-                  [mkO RNone [E 1 1 1 1]; mkO RNone [E 2 2 2 2]]) = 1.
+                  [mkO RNone [E 1 1 1 1]; mkO RNone [E 2 2 2 2]] 0 0) = 1.
 Proof. vm_compute. reflexivity. Qed.
 
 Example verdict_accepts_exact_report :
   verdict (mkCase 1 [P 1 1 11 12 13; P 2 0 0 0 0] [D 0 7; D 1 8; D 0 8]
-                  [mkO (RErr 1 11 12 13 1) [E 1 1 1 1]; mkO RNone [E 2 2 2 2]]) = 0.
+                  [mkO (RErr 1 11 12 13 1) [E 1 1 1 1]; mkO RNone [E 2 2 2 2]] 4242 4242) = 0.
+Proof. vm_compute. reflexivity. Qed.
+
+Example verdict_flags_overwritten_outer_event :
+  verdict (mkCase 1 [P 1 0 0 0 0] [] [mkO RNone [E 1 1 1 1]] 4242 0) = 4.
 Proof. vm_compute. reflexivity. Qed.
